@@ -10,6 +10,7 @@ GATES = [
     ("AFTER_TERM", "C02", "nothing is delivered after the terminating message"),
     ("AFTER_DISPOSAL", "C03", "nothing is delivered to a sink that disposed"),
     ("NO_ORPHAN", "C04", "no live upstream is left behind when the output ends"),
+    ("QUIET", "C04", "no delivery to the sink while an upstream subscription is in progress"),
     ("UNREQUESTED", "C14", "no Data beyond the Pulls received (pullable mode)"),
     ("UP_KIND", "C04", "only Pull/Terminate/Error go upstream"),
     ("UP_GREETED", "C04", "nothing is sent to an upstream before it greeted"),
